@@ -1,78 +1,15 @@
 import IdpyVerif.Model.SessionDB
+import IdpyVerif.Proofs.Split
 namespace Idpy.SessionDB
+open Idpy.Split
 
-/-- the piece contains the two-character divider -/
-def hasDiv : Str → Bool
-  | [] => false
-  | [_] => false
-  | c1 :: c2 :: rest => (c1 = semi ∧ c2 = semi) || hasDiv (c2 :: rest)
+/-- identifier guard for a path: no element contains ";;", none but the last ends in ";" -/
+abbrev SepFree (p : List Str) : Prop := Split.SepFree semi p
 
-/-- guard for a path element that is followed by another one: it contains no divider and
-    does not end in `;` (otherwise its last `;` fuses with the divider that follows) -/
-def Inner (a : Str) : Prop := hasDiv a = false ∧ a.getLast? ≠ some semi
-
-/-- guard for a whole path -/
-def SepFree : List Str → Prop
-  | [] => False
-  | [a] => hasDiv a = false
-  | a :: b :: rest => Inner a ∧ SepFree (b :: rest)
-
-theorem splitAux_cons2 (c1 c2 : Nat) (rest cur : Str) :
-    splitAux (c1 :: c2 :: rest) cur =
-      if c1 = semi ∧ c2 = semi then cur.reverse :: splitAux rest [] else splitAux (c2 :: rest) (c1 :: cur) := by
-  rw [splitAux]
-
-theorem splitAux_last (a cur : Str) (h : hasDiv a = false) :
-    splitAux a cur = [cur.reverse ++ a] := by
-  induction a generalizing cur with
-  | nil => simp [splitAux]
-  | cons c cs ih =>
-    cases cs with
-    | nil => simp [splitAux]
-    | cons d ds =>
-      have h' : ¬ (c = semi ∧ d = semi) ∧ hasDiv (d :: ds) = false := by
-        simp [hasDiv] at h; exact ⟨fun hh => h.1 hh.1 hh.2, h.2⟩
-      rw [splitAux_cons2, if_neg h'.1, ih _ h'.2]
-      simp
-
-theorem splitAux_inner (a rest cur : Str) (h : Inner a) :
-    splitAux (a ++ semi :: semi :: rest) cur = (cur.reverse ++ a) :: splitAux rest [] := by
-  induction a generalizing cur with
-  | nil => simp [splitAux]
-  | cons c cs ih =>
-    obtain ⟨hd, hl⟩ := h
-    cases cs with
-    | nil =>
-      -- single char c, must not be `;`
-      have hc : c ≠ semi := by simpa using hl
-      simp only [List.cons_append, List.nil_append]
-      rw [splitAux_cons2, if_neg (by intro hh; exact hc hh.1), splitAux_cons2, if_pos ⟨rfl, rfl⟩]
-      simp
-    | cons d ds =>
-      have h' : ¬ (c = semi ∧ d = semi) ∧ hasDiv (d :: ds) = false := by
-        simp [hasDiv] at hd; exact ⟨fun hh => hd.1 hh.1 hh.2, hd.2⟩
-      have hl' : (d :: ds).getLast? ≠ some semi := by
-        simpa [List.getLast?_cons_cons] using hl
-      simp only [List.cons_append]
-      rw [splitAux_cons2, if_neg h'.1]
-      have := ih (c :: cur) ⟨h'.2, hl'⟩
-      simp only [List.cons_append] at this
-      rw [this]; simp
-
-theorem split_join (p : List Str) (h : SepFree p) : splitKey (joinKey p) = p := by
-  unfold splitKey
-  induction p with
-  | nil => exact absurd h (by simp [SepFree])
-  | cons a as ih =>
-    cases as with
-    | nil => simp [joinKey, splitAux_last a [] h]
-    | cons b bs =>
-      obtain ⟨ha, hrest⟩ := h
-      simp only [joinKey]
-      rw [splitAux_inner a _ [] ha, ih hrest]; simp
+theorem split_join (p : List Str) (h : SepFree p) : splitKey (joinKey p) = p :=
+  Split.split_join semi p h
 
 theorem join_injective (p q : List Str) (hp : SepFree p) (hq : SepFree q)
-    (h : joinKey p = joinKey q) : p = q := by
-  rw [← split_join p hp, ← split_join q hq, h]
+    (h : joinKey p = joinKey q) : p = q := Split.join_injective semi p q hp hq h
 
 end Idpy.SessionDB
